@@ -109,6 +109,12 @@ def route_sessions(tier: str, seed: int, kinds, wd):
             optsets.append(("dump", {"dump_to_file": str(wd / f"client-dump-{kind}.jsonl")}))
             optsets.append(("dump-filter+units", {"dump_to_file": str(wd / f"client-dump2-{kind}.jsonl"), "dump_pgns": [59904],
                                                   "preferred_units": {PQ.ANGLE: "deg"}}))
+        # the address claim itself excluded by number: the decoder still learns the names from it (identity, network map and
+        # manufacturer filters keep working) - a client that sorts frames out in front of its decoder has to do the same
+        optsets += [("exclude-claim+network-map", {"exclude_pgns": [60928], "build_network_map": True}),
+                    ("exclude-claim+manufacturer", {"exclude_pgns": [60928, 130306], "exclude_manufacturer_code": ["garmin"]}),
+                    ("exclude-claim", {"exclude_pgns": [60928]}),
+                    ("include-without-claim", {"include_pgns": [127250, 129029], "build_network_map": True})]
         if tier == "selftest":
             optsets = optsets[::3]
         for oname, kw in optsets:
